@@ -17,7 +17,8 @@
 //!     operations re-based by a random unimodular matrix and origin shift (`t<u>-re`, `row u`), with translations perturbed
 //!     around epsilon (`-noise`), with an operation dropped / a time-reversal flag flipped / all flags set / no operation at all
 //!     (the error branches);
-//!   crystal part, for the selection of UNI numbers of `magstages`: the magnetic crystals of `magpipe::cases_of_uni` (own,
+//!   crystal part, for a seed-dependent sixth of the UNI numbers plus the first entry of every construct type x centering
+//!     class (quick) / for ALL 1651 UNI numbers (thorough): the magnetic crystals of `magpipe::cases_of_uni` (own,
 //!     re-described, reversed, zero moments, supercells; collinear and non-collinear, both actions) taken through
 //!     PrimitiveMagneticCell -> PrimitiveMagneticSymmetrySearch, then `s5m` on the found operations and `s6m` on the primitive
 //!     magnetic cell; plus `s6m` twins with positions / moments displaced by a fraction of the tolerances (so that the
@@ -295,7 +296,7 @@ pub fn gen(tier: &str, seed: u64, out: &str, part: usize, nparts: usize) {
             table_cases(&mut w, u, tier, seed);
         }
     }
-    let modulus: u64 = if thorough { 3 } else { 6 };
+    let modulus: u64 = if thorough { 1 } else { 6 };
     let firsts: std::collections::BTreeSet<i32> = {
         let mut seen = std::collections::BTreeSet::new();
         (1..=1651).filter(|&u| seen.insert((construct_type_of(u), centering_of(u)))).collect()
@@ -312,8 +313,26 @@ pub fn gen(tier: &str, seed: u64, out: &str, part: usize, nparts: usize) {
     w.finish();
 }
 
+/// dev: `mag-id-noisy <uni> <radius/symprec> <combo 0..3>`: a generated crystal of the UNI number with atoms displaced by at
+/// most radius, through the real pipeline; prints the `mds` line for the Lean oracle.
+fn noisy(seed: u64, u: i32, rel: f64, combo: usize) {
+    use moyo::base::RotationMagneticMomentAction as A;
+    let combos = [(Kind::NonCollinear, A::Axial), (Kind::Collinear, A::Polar), (Kind::NonCollinear, A::Polar), (Kind::Collinear, A::Axial)];
+    let (kind, action) = combos[combo % 4];
+    let mut rng = unit_rng(seed, u, 0x4E4F_4953);
+    let base = mag_crystal(u, kind, action, &mut rng, 1, 12).expect("premise");
+    let symprec = 1e-4;
+    let mut c = base.clone();
+    c.c = base.c.noise(&mut rng, rel * symprec);
+    println!("{}", crate::magpipe::mag_case_line(&format!("u{}-noisy", u), &c, symprec, Some(1e-4)));
+}
+
 pub fn dispatch(args: &[String], seed: u64) -> bool {
     match args[1].as_str() {
+        "mag-id-noisy" => {
+            noisy(seed, args[2].parse().unwrap(), args[3].parse().unwrap(), args.get(4).map(|x| x.parse().unwrap()).unwrap_or(0));
+            true
+        }
         "mag-id-gen" => {
             let (part, nparts) = if args.len() >= 6 { (args[4].parse().unwrap(), args[5].parse().unwrap()) } else { (0, 1) };
             gen(&args[2], seed, &args[3], part, nparts);
